@@ -640,17 +640,9 @@ func (pc *parentController) syncParentObject(parent *unstructured.Unstructured) 
 			if err != nil {
 				return fmt.Errorf("invalid labels on desired child %v %v/%v: %w", obj.GetKind(), obj.GetNamespace(), obj.GetName(), err)
 			}
-			// If selector generation is enabled, add the controller-uid label to all
-			// desired children so they match the generated selector.
-			if pc.cc.Spec.GenerateSelector != nil && *pc.cc.Spec.GenerateSelector {
-				if objLabels == nil {
-					objLabels = make(map[string]string, 1)
-				}
-				if _, ok := objLabels["controller-uid"]; !ok {
-					objLabels["controller-uid"] = string(parent.GetUID())
-					obj.SetLabels(objLabels)
-				}
-			}
+			// If selector generation is enabled, callHook has already added the
+			// controller-uid label to every desired child (the rollout logic has to
+			// see the same children that are applied here).
 			// Make sure all desired children match the parent's selector.
 			// We consider it user error to try to create children that would be
 			// immediately orphaned.
